@@ -204,19 +204,6 @@ theorem C01_model_refines_spec (descs : List Bool) (skip limit : Option Nat) (P 
           hperm.countP_eq _
     _ = List.countP (fun pr => keysEqv descs c pr.key && pr.vals == r) P := rfl
 
-theorem canonRow_noop (cc : List Bool) (vs : List Val) (h : cc.all (!·) = true) :
-    canonRow cc vs = vs := by
-  induction cc generalizing vs with
-  | nil => cases vs <;> simp [canonRow]
-  | cons c cs ih =>
-    simp only [List.all_cons, Bool.and_eq_true, Bool.not_eq_true'] at h
-    cases vs with
-    | nil => simp [canonRow]
-    | cons v vs' =>
-      have hc : c = false := h.1
-      subst hc
-      cases v <;> simp [canonRow, ih vs' h.2]
-
 /-- For every graph and every query without a `collect` column: the table the model
 computes satisfies the specification the harness evaluates on the engine's table. -/
 theorem C01_model_refines_spec_query (g : Graph) (de : Bool) (q : Query) (t : Table)
@@ -389,14 +376,6 @@ theorem C01_counterexample_varlen_bfs_depth :
   decide
 
 /-! ## count by degree (`adjacency_agg_detector`) -/
-
-theorem length_filterMap_eq_countP {α β : Type} (f : α → Option β) (l : List α) :
-    (l.filterMap f).length = l.countP (fun x => (f x).isSome) := by
-  induction l with
-  | nil => rfl
-  | cons x xs ih =>
-    simp only [List.filterMap_cons, List.countP_cons]
-    cases h : f x <;> simp [ih]
 
 /-- expanding an unconstrained, typed, directed hop from node `a` yields exactly
 `outDegree` rows — for every well-formed graph — so `count(*)` grouped by the source may be
